@@ -15,12 +15,18 @@ def run_legs(pid, legs, seed):
             bins[fl] = os.path.join(build.ensure_rs("rtcheck", fl), "rtcheck")
     work = build.workdir(pid.lower() + "-rt")
     jobs = []
+    fuzz_results = []
     for li, leg in enumerate(legs):
+        if leg["flavor"] == "fuzz":
+            fuzz_results.append(run_fuzz(pid, leg, seed + li, work))
+            continue
         for w in range(leg["workers"]):
             out = os.path.join(work, "%s-%d.json" % (leg["name"], w))
             s = (seed * 1000003 + li * 1009 + w * 17 + 1) & 0x7FFFFFFFFFFFFFFF
             if leg["flavor"] == "miri":
-                cmd = leg["runner"] + ["--", pid.lower()]
+                prefix, cwd, menv = build.ensure_miri_runner()
+                cmd = prefix + [pid.lower()]
+                leg = dict(leg, cwd=cwd, env=dict(leg.get("env", {}), **menv), timeout=leg.get("timeout", 5400))
             else:
                 cmd = [bins[leg["flavor"]], pid.lower()]
             cmd += ["--seed", str(s), "--cases", str(leg["cases"]), "--out", out,
@@ -71,11 +77,67 @@ def run_legs(pid, legs, seed):
             merged["extra"].setdefault(name, {})[k] = v
         for v in d["violations"]:
             merged["violations"].append({"replay": v["replay"], "message": "leg %s: %s" % (name, v["message"])})
+    for fr in fuzz_results:
+        merged["legs"][fr["name"]] = {"evaluations": fr["runs"], "distinct_nontrivial": 0, "coverage_edges": fr["cov"], "corpus": fr["corpus"]}
+        merged["evaluations"] += fr["runs"]
+        merged["violations"].extend(fr["violations"])
     build.rm_workdir(work)
     return merged
 
 
+def run_fuzz(pid, leg, seed, work):
+    """one coverage-guided campaign (libFuzzer, ASan) of fixed work: -runs=N from the committed seed corpus"""
+    import re, shutil
+    b = build.ensure_fuzz(leg["target"])
+    corpus = os.path.join(work, "corpus-" + leg["target"])
+    os.makedirs(corpus, exist_ok=True)
+    seedc = os.path.join(VERIF, "rs", "fuzz", "seed-corpus", leg["target"])
+    if os.path.isdir(seedc):
+        for f in os.listdir(seedc):
+            shutil.copy(os.path.join(seedc, f), corpus)
+    art = os.path.join(work, "artifacts-" + leg["target"]) + "/"
+    os.makedirs(art, exist_ok=True)
+    cmd = [b, corpus, "-runs=%d" % leg["runs"], "-seed=%d" % (seed % (2 ** 31) + 1), "-max_len=%d" % leg.get("max_len", 512), "-len_control=0",
+           "-artifact_prefix=" + art, "-timeout=30", "-rss_limit_mb=4096", "-jobs=0", "-print_final_stats=1"]
+    env = dict(os.environ)
+    env["ASAN_OPTIONS"] = "detect_leaks=1"
+    try:
+        p = subprocess.run(cmd, stdout=subprocess.PIPE, stderr=subprocess.STDOUT, text=True, env=env, timeout=leg.get("timeout", 5400), errors="replace")
+    except subprocess.TimeoutExpired:
+        raise build.Inconclusive("fuzz campaign %s timed out" % leg["target"])
+    out = p.stdout
+    m = re.search(r"#(\d+)\s+DONE\s+cov: (\d+).*corp: (\d+)", out)
+    res = {"name": leg["name"], "runs": int(m.group(1)) if m else 0, "cov": int(m.group(2)) if m else 0, "corpus": int(m.group(3)) if m else 0, "violations": []}
+    if p.returncode != 0:
+        arts = sorted(os.listdir(art))
+        if not arts and "timeout" in out.lower() and "violation" not in out:
+            raise build.Inconclusive("fuzz campaign %s: libFuzzer timeout/oom: %s" % (leg["target"], out[-300:]))
+        d = os.path.join(VERIF, "replays", pid)
+        os.makedirs(d, exist_ok=True)
+        rp = os.path.join(d, "fuzz-%s-%s" % (leg["target"], arts[0] if arts else "noartifact"))
+        if arts:
+            shutil.copy(os.path.join(art, arts[0]), rp)
+        else:
+            open(rp, "w").write(out[-4000:])
+        mm = re.search(r"(C\d\d violation: .*)", out)
+        res["violations"].append({"replay": rp, "message": "leg %s (libFuzzer+ASan, target %s): %s\n%s" % (leg["name"], leg["target"], mm.group(1)[:600] if mm else "crash / sanitizer report", out[-1200:])})
+        if not m:
+            mr = re.findall(r"#(\d+)\s", out)
+            res["runs"] = int(mr[-1]) if mr else 0
+    return res
+
+
+FUZZ_TARGETS = {"C12": ["c12_write"], "C03": ["c03_ledger"], "C16": ["c16_views", "c16_utf8"]}
+
+
 def replay(pid, path, flavor="release", extra=()):
+    base = os.path.basename(path)
+    if base.startswith("fuzz-"):
+        target = next(t for t in FUZZ_TARGETS[pid] if base.startswith("fuzz-" + t))
+        b = build.ensure_fuzz(target)
+        p = subprocess.run([b, path], stdout=subprocess.PIPE, stderr=subprocess.STDOUT, text=True, errors="replace")
+        sys.stdout.write(p.stdout[-3000:])
+        return {"violations": [{"replay": path, "message": p.stdout[-1200:]}] if p.returncode != 0 else []}
     b = os.path.join(build.ensure_rs("rtcheck", flavor), "rtcheck")
     p = subprocess.run([b, pid.lower(), "--replay", path] + list(extra), stdout=subprocess.PIPE, stderr=subprocess.STDOUT, text=True)
     sys.stdout.write(p.stdout)
